@@ -65,6 +65,18 @@ NOBJ = 4
 # spelling (X, in some modules); True and 1.0 only occur as values given to annotate on ONE function, so
 # that the model's equality on numbers stays Python's equality on everything two signatures can compare.
 NUM = {5: '1', 6: 'True', 7: '1.0'}
+# object 8 is a wildcard: an instance whose __eq__ answers True and whose __ne__ answers False for
+# everything, the inspect.Parameter.empty sentinel included (like unittest.mock.ANY).  It is an
+# annotation like any other: what it DENOTES is the object itself (identity).  Only the worlds of the
+# wildcard family bind a spelling to it / give it to annotate.  The model compares annotation values
+# as numbers (identity), so a case in which a wildcard-annotated parameter is CONCILED with a
+# parameter of another input is examined without the model (see wild_names): by the oracle (which
+# concils with Python's equality: the wildcard equals everything, the left annotation is kept) and
+# by the twin relation.  A failure there has the key WILD_KEY (sigtools before 4d2de25 recognised a
+# missing annotation with `!= empty`, which the wildcard answers False: the annotation was dropped
+# for eager functions and kept for postponed ones).
+WILD = 8
+WILD_KEY = 'C11:wildcard-conciled'
 MODES = ('e', 'p', 'x')
 NBASE = 3          # modules 0..2 hold plain functions, 3..4 hold forwarding wrappers
 NMOD = 5
@@ -169,10 +181,14 @@ class World(object):
                 f.write('v%d = V(%d)\n' % (i, i))
             for i, txt in sorted(NUM.items()):
                 f.write('v%d = %s\n' % (i, txt))
+            f.write('class Wild(object):\n    def __eq__(self, other):\n        return True\n'
+                    '    def __ne__(self, other):\n        return False\n    __hash__ = object.__hash__\n'
+                    '    def __repr__(self):\n        return "WILD"\nv%d = Wild()\n' % WILD)
         importlib.invalidate_caches()
         self.vals = importlib.import_module(vals)
         self.modnames.append(vals)
-        self.obj = {i: getattr(self.vals, 'v%d' % i) for i in list(range(1, NOBJ + 1)) + sorted(NUM)}
+        self.obj = {i: getattr(self.vals, 'v%d' % i) for i in list(range(1, NOBJ + 1)) + sorted(NUM) + [WILD]}
+        self.has_wild = any(v == WILD for b in self.bindings for v in b.values())
         self.obj_id = {id(o): i for i, o in self.obj.items()}
         for i in range(len(SPELL)):
             self.obj[SPELL_BASE + i] = SPELL[i]
@@ -340,7 +356,7 @@ def _annotate_spec(rng, ps, density):
     return out
 
 
-def gen_world(rng, nfam=14, nrand=10, ninner=10, nwrap=24, ntpl=10, nrehome=12, nwraps=20):
+def gen_world(rng, nfam=14, nrand=10, ninner=10, nwrap=24, ntpl=10, nrehome=12, nwraps=20, wild=False):
     bindings = [{s: rng.randint(1, NOBJ) for s in range(NNAMES)} for _ in range(NMOD)]
     # two spellings of one object in module 0; one spelling, different objects in modules 0 / 1
     bindings[0][2] = bindings[0][0]
@@ -349,6 +365,11 @@ def gen_world(rng, nfam=14, nrand=10, ninner=10, nwrap=24, ntpl=10, nrehome=12, 
     bindings[2][1] = bindings[0][0]
     for m in rng.sample(range(NMOD), 2):
         bindings[m][3] = 5          # X = 1 (the int), see NUM
+    if wild:
+        # a spelling denotes the wildcard object in three of the modules (not always the same
+        # spelling: one spelling then denotes the wildcard here and an ordinary object there)
+        for m in rng.sample(range(NMOD), 3):
+            bindings[m][rng.choice([1, 2, 3]) if m else rng.choice([1, 3])] = WILD
     funcs = []
     fid = itertools.count(100)
 
@@ -419,6 +440,8 @@ def given_value(rng, world, f, sp, single):
     the string spelled exactly like the syntax annotation (equal to the raw annotation of
     a future-flag function), or True / 1.0 over the int 1 (only when no second signature
     is involved, see NUM)"""
+    if world.has_wild and rng.random() < 0.3:
+        return WILD
     if sp is not None and rng.random() < 0.5:
         if single and world.truth(f, sp) == 5 and rng.random() < 0.7:
             return rng.choice([6, 7])
@@ -1101,7 +1124,8 @@ def oracle(world, case, mode, ans, alrc=False):
             acc = cons[0][1][3]
             for _, q in cons[1:]:
                 if acc is not None and q[3] is not None:
-                    acc = acc if acc == q[3] else None
+                    # Python equality of the two objects: the wildcard equals everything
+                    acc = acc if (acc == q[3] or WILD in (acc, q[3])) else None
                 elif acc is None:
                     acc = q[3]
             exact = (acc,)
@@ -1117,6 +1141,8 @@ def oracle(world, case, mode, ans, alrc=False):
 def vname(v):
     if v is None:
         return 'empty'
+    if v == WILD:
+        return 'WILD (an object that compares equal to everything)'
     if v >= SPELL_BASE:
         return 'the string %r' % SPELL[v - SPELL_BASE] if v - SPELL_BASE < len(SPELL) else '<%d>' % v
     return NUM.get(v, 'v%d' % v)
@@ -1163,11 +1189,48 @@ def raw_class_pair(world, case, mode, names=None):
                 if names is not None and p[0] not in names and q[0] not in names and not (
                         klass(p[1]) == klass(q[1]) and klass(p[1]) in names):
                     continue
-                if (raw(a, p) == raw(b_, q)) != (p[3] == q[3]):
+                # Python equality on both sides (the wildcard object equals everything; a spelling
+                # string is never the wildcard)
+                if (raw(a, p) == raw(b_, q) or WILD in (raw(a, p), raw(b_, q))) != (p[3] == q[3] or WILD in (p[3], q[3])):
                     return 'f%d.%s: %s = %s  vs  f%d.%s: %s = %s' % (
                         a['fid'], name_of(p[0]), vname(raw(a, p)), vname(p[3]),
                         b_['fid'], name_of(q[0]), vname(raw(b_, q)), vname(q[3]))
     return None
+
+
+def wild_names(world, case):
+    """The wildcard family.  Names and classes ('pos', 'VP', 'VK') of the parameters of `case`
+    that are involved in a conciliation with a wildcard-annotated parameter: a parameter of one
+    input denoting WILD that is related (same name; both positional; star parameters of one
+    kind) to a parameter of ANOTHER input.  Empty: the wildcard, if present at all, travels
+    alone and the case is examined like any other (model included)."""
+    views = [case]
+    if case['op'] == 'annauto' and not case.get('kwos'):
+        views.append({'op': 'auto', 'f': case['f']})      # discovery conciles the function's own annotations
+    names = set()
+    for view in views:
+        ins = inputs_of(world, view)
+        for a, b_ in itertools.combinations(ins, 2):
+            for p in a['params']:
+                for q in b_['params']:
+                    if WILD in (p[3], q[3]) and related(p, q):
+                        names.update((p[0], q[0]))
+                        if klass(p[1]) == klass(q[1]) and klass(p[1]) in ('pos', 'VP', 'VK'):
+                            names.add(klass(p[1]))
+    return names
+
+
+def in_wild(wn, nm, k):
+    return nm in wn or klass(k) in wn
+
+
+def wild_eligible(world, case):
+    """wildcard-conciled cases the generator keeps: no other delimited class (wraps wrappers,
+    annotate under discovery, raw spelling vs value equality) can be involved, because those
+    are recognised with the help of the model, which is not run on these cases"""
+    if case['op'] not in ('merge', 'embed', 'forwards', 'auto', 'annot') or wraps_involved(world, case):
+        return False
+    return all(raw_class_pair(world, case, m) is None for m in ('p', 'x'))
 
 
 def show_case(world, case):
@@ -1204,28 +1267,45 @@ def examine(world, cases, rep=None):
     answers = []
     items = []
     rcases = []      # the case as written to a replay file: with the retrieval history that matters
-    for c in cases:
+    wilds = []       # per case: wild_names
+    item_of = {}     # (case index, mode) -> index in items
+    for ci, c in enumerate(cases):
         hist = world.history(all_fids(world, c))
         rcases.append(dict(c, prime=hist + [f for f in c.get('prime', ()) if f not in hist]) if hist else c)
+        wn = wild_names(world, c)
+        wilds.append(wn)
         row = {}
         for m in MODES:
             row[m] = run_impl(world, c, m)
-            items.append((c, m, row[m]))
+            if not wn:
+                item_of[(ci, m)] = len(items)
+                items.append((c, m, row[m]))
         answers.append(row)
     dis = model_disagreements(world, items)
     alrc = aligned_rolecons(world, cases)
     viol, breaks = [], []
-    stats = {'ok': 0, 'err': 0, 'twin_diff': 0, 'by_op': {}, 'surviving_annotations': 0}
+    stats = {'ok': 0, 'err': 0, 'twin_diff': 0, 'by_op': {}, 'surviving_annotations': 0,
+             'wildcard_cases': 0, 'wildcard_conciled_cases': 0, 'wildcard_values_reported': 0}
     for ci, (c, row) in enumerate(zip(cases, answers)):
         stats['by_op'][c['op']] = stats['by_op'].get(c['op'], 0) + 1
+        wn = wilds[ci]
+        if wn:
+            stats['wildcard_conciled_cases'] += 1
+        if any(p[3] == WILD for i in inputs_of(world, c) for p in i['params']) or any(i['ret'] == WILD for i in inputs_of(world, c)):
+            stats['wildcard_cases'] += 1
+        if row['e']['ok']:
+            stats['wildcard_values_reported'] += sum(1 for x in row['e']['svs'] + [row['e']['svr']] if x == WILD)
         agree = {}
         for mi, m in enumerate(MODES):
-            idx = ci * len(MODES) + mi
-            agree[m] = idx not in dis
-            if not agree[m]:
+            idx = item_of.get((ci, m))
+            # a wildcard-conciled case is not given to the model: nothing is known about agreement
+            agree[m] = idx is not None and idx not in dis
+            if idx is not None and not agree[m]:
                 breaks.append((c, m, dis[idx], row[m]))
             for key, what, subject in oracle(world, c, m, row[m], alrc.get(ci, False)):
-                if key in WRAPS_SYMPTOMS and agree[m] and wraps_involved(world, c):
+                if wn and key in ('C11:lost', 'C11:wrong-context') and isinstance(subject, tuple) and in_wild(wn, *subject):
+                    key = WILD_KEY
+                elif key in WRAPS_SYMPTOMS and agree[m] and wraps_involved(world, c):
                     key = WRAPS_KEY
                 elif agree[m] and annotate_lost(world, c, key, subject):
                     key = ANNOT_KEY
@@ -1240,9 +1320,12 @@ def examine(world, cases, rep=None):
             oe, om = observe(row['e']), observe(row[m])
             only_params = oe[0] == 'ok' and om[0] == 'ok' and oe[2] == om[2]
             pair = raw_class_pair(world, c, m, diff_names(oe, om)) if only_params else None
-            what = '%s: evaluated() on the %s twins gives %s, on the eager twins %s' % (
-                show_case(world, rcases[ci]), {'p': 'postponed', 'x': 'mixed eager/postponed'}[m],
-                row[m].get('etext', row[m].get('err')), row['e'].get('etext', row['e'].get('err')))
+            if wn and only_params and len(oe[1]) == len(om[1]) and \
+                    all(in_wild(wn, x[0], x[1]) and in_wild(wn, y[0], y[1]) for x, y in zip(oe[1], om[1]) if x != y):
+                viol.append((WILD_KEY, what_twin(world, rcases[ci], m, row) + '  (a wildcard-annotated parameter is conciled: %s)' % sorted(
+                    x if isinstance(x, str) else name_of(x) for x in wn), rcases[ci]))
+                continue
+            what = what_twin(world, rcases[ci], m, row)
             if pair is not None and agree[m] and agree['e']:
                 viol.append((KNOWN_KEY, what + '  (raw equality differs from value equality on %s)' % pair, rcases[ci]))
             elif agree[m] and agree['e'] and wraps_involved(world, c):
@@ -1250,6 +1333,12 @@ def examine(world, cases, rep=None):
             else:
                 viol.append(('C11:twin', what, rcases[ci]))
     return viol, breaks, stats
+
+
+def what_twin(world, rcase, m, row):
+    return '%s: evaluated() on the %s twins gives %s, on the eager twins %s' % (
+        show_case(world, rcase), {'p': 'postponed', 'x': 'mixed eager/postponed'}[m],
+        row[m].get('etext', row[m].get('err')), row['e'].get('etext', row['e'].get('err')))
 
 
 # what the known finding C11:wraps-globals looks like on one answer
@@ -1300,15 +1389,26 @@ def run(ctx, rep):
     ncases = 2500 if ctx.quick else 8000
     rep.rule = ('random operations (merge 2-3, embed, mask, forwards, functools.partial, kwoargs/posoargs, annotate, annotate+merge, '
                 'automatic discovery through a forwarding wrapper, signatures.signature, sigtools.signature) over real functions compiled '
-                'from generated modules in three worlds (all eager / all postponed / mixed); non-trivial = the inputs carry an annotation '
+                'from generated modules in three worlds (all eager / all postponed / mixed), plus worlds in which a spelling denotes / annotate is given '
+                'an object that compares equal to everything; non-trivial = the inputs carry an annotation '
                 'and the operation combines or transforms a signature; distinct = distinct (operation, functions, arguments)')
     total = 0
     hist = {}
     agg = {}
+    # the wildcard family: further worlds in which a spelling denotes, and annotate is given, an
+    # object that compares equal to everything
+    wrng = ctx.rng('wildworld')
+    nwild = 1 if ctx.quick else 3
+    nwcases = 1800 if ctx.quick else 5000
     try:
-        for w in range(nworlds):
-            world = gen_world(rng)
-            cases = gen_cases(rng, world, ncases)
+        for w in range(nworlds + nwild):
+            if w < nworlds:
+                world = gen_world(rng)
+                cases = gen_cases(rng, world, ncases)
+            else:
+                world = gen_world(wrng, wild=True)
+                cases = [c for c in gen_cases(wrng, world, nwcases)
+                         if not wild_names(world, c) or wild_eligible(world, c)]
             viol, breaks, stats = examine(world, cases)
             total += len(cases) * len(MODES)
             for c in cases:
@@ -1324,7 +1424,8 @@ def run(ctx, rep):
             for c, m, model, impl in breaks:
                 rep.corr_break('annotations, source_value, evaluated (mode %s)' % m, show_case(world, c),
                                str(model), str({k: v for k, v in impl.items() if k != 'notes'})[:600])
-            for key, what, c in viol:
+            # (the conciled-wildcard finding last: any other violation is shown first)
+            for key, what, c in sorted(viol, key=lambda v: v[0] == WILD_KEY):
                 hist[key] = hist.get(key, 0) + 1
                 rep.violation(key, what, dict(world.data(all_fids(world, c)), case=c))
             for c in cases[:3]:
@@ -1332,13 +1433,22 @@ def run(ctx, rep):
                 rep.sample({'case': show_case(world, c), 'postponed': a.get('text', a.get('err'))})
             world.close()
             _WORLDS.remove(world)
+        # the fixed cases of the wildcard family, on every run
+        for r in WILD_WITNESS['cases']:
+            viol, breaks = _rerun(r)
+            total += len(MODES)
+            for key, what, c in viol:
+                hist[key] = hist.get(key, 0) + 1
+                rep.violation(key, what, dict(bindings=r['bindings'], funcs=r['funcs'], case=c))
     finally:
         cleanup()
     rep.evaluations = total
     rep.coverage['finding_histogram'] = hist
     rep.coverage['c11_stats'] = agg
     rep.assumptions = [
-        'annotation objects compare by identity (instances of a plain class); annotation spellings are plain names bound in every module',
+        'annotation objects compare by identity (instances of a plain class), except the wildcard object of the wildcard family, which compares equal to '
+        'everything: cases in which a wildcard-annotated parameter is conciled with a parameter of another input are decided by the oracle and the twin '
+        'relation only, not compared with the model; annotation spellings are plain names bound in every module',
         'the environment g of the model is the generator\'s table of module bindings; modules are not rebound after the functions are defined',
     ]
 
@@ -1423,4 +1533,23 @@ _AF = [{'fid': 100, 'mod': 0, 'params': [[14, 'PK', None, None], [15, 'PK', None
         'call': {'callee': 100, 'cmod': 0, 'n': 0, 'kw': [], 'va': 'args', 'vk': 'kwargs'}}]
 ANNOT_WITNESS = {'cases': [
     {'bindings': _WB, 'funcs': _AF, 'case': {'op': 'annauto', 'f': [101], 'anns': [[1, 2]], 'retv': 3}},
+]}
+
+
+# regression cases for C11:wildcard-conciled (fixed in sigtools 4d2de25; they must give no
+# violation): module 0 binds U to the wildcard object.
+#   module 0: def f100(a: U)      module 1: def f101(a)
+# merge(signature(f100), signature(f101)): before the fix the eager twins gave (a) -- _concile_meta
+# asked `left.annotation != left.empty`, which the wildcard answers False -- and the postponed twins
+# (raw annotation 'U', a string) gave (a: 'U'), evaluated() -> (a: WILD).
+# Second case: f100(a: U) merged with f102(a: U), U = v2 in module 1: the eager twins reported v2 for
+# a (the wildcard on the left counted as no annotation), the postponed twins WILD.
+_XB = [{'0': 1, '1': 8, '2': 1, '3': 3}, {'0': 2, '1': 2, '2': 3, '3': 3}, {'0': 1, '1': 1, '2': 1, '3': 1},
+       {'0': 1, '1': 1, '2': 1, '3': 1}, {'0': 1, '1': 1, '2': 1, '3': 1}]
+_XF = [{'fid': 100, 'mod': 0, 'params': [[1, 'PK', None, 1]], 'ret': None, 'group': 'B', 'call': None},
+       {'fid': 101, 'mod': 1, 'params': [[1, 'PK', None, None]], 'ret': None, 'group': 'B', 'call': None},
+       {'fid': 102, 'mod': 1, 'params': [[1, 'PK', None, 1]], 'ret': None, 'group': 'B', 'call': None}]
+WILD_WITNESS = {'cases': [
+    {'bindings': _XB, 'funcs': _XF[:2], 'case': {'op': 'merge', 'f': [100, 101]}},
+    {'bindings': _XB, 'funcs': [_XF[0], _XF[2]], 'case': {'op': 'merge', 'f': [100, 102]}},
 ]}
